@@ -308,6 +308,30 @@ where
         let mut stream_stopped = None;
 
         loop {
+            // Look at the bytes which are already buffered before asking the transport
+            // for more: a previous read may have delivered this varint together with
+            // the one before it, and the stream may have ended right behind it.
+            let mut buf = self.stream.buf_mut();
+            if self.expected.is_none() && buf.remaining() >= 1 {
+                self.expected = Some(VarInt::encoded_size(buf.chunk()[0]));
+            }
+
+            if let Some(expected) = self.expected {
+                if buf.remaining() >= expected {
+                    // the next varint has its own length
+                    self.expected = None;
+
+                    let reult = VarInt::decode(&mut buf).map_err(|_| {
+                        PollTypeError::InternalError(InternalConnectionError::new(
+                            Code::H3_INTERNAL_ERROR,
+                            "Unexpected end parsing varint".to_string(),
+                        ))
+                    })?;
+
+                    return Poll::Ready(Ok((reult, stream_stopped)));
+                }
+            }
+
             if stream_stopped.is_some() {
                 return Poll::Ready(Err(PollTypeError::EndOfStream));
             }
@@ -331,28 +355,6 @@ where
                     Some(StreamEnd::Other)
                 }
             };
-
-            let mut buf = self.stream.buf_mut();
-            if self.expected.is_none() && buf.remaining() >= 1 {
-                self.expected = Some(VarInt::encoded_size(buf.chunk()[0]));
-            }
-
-            if let Some(expected) = self.expected {
-                if buf.remaining() < expected {
-                    continue;
-                }
-            } else {
-                continue;
-            }
-
-            let reult = VarInt::decode(&mut buf).map_err(|_| {
-                PollTypeError::InternalError(InternalConnectionError::new(
-                    Code::H3_INTERNAL_ERROR,
-                    "Unexpected end parsing varint".to_string(),
-                ))
-            })?;
-
-            return Poll::Ready(Ok((reult, stream_stopped)));
         }
     }
 
